@@ -138,6 +138,12 @@ func Leaked() []string {
 	return out
 }
 
+// MarkClosed tells Teardown that Router.Close has already been attempted (it
+// must not be called a second time when the first call hangs: a goroutine
+// blocked on the sync.Once inside Close is not durably blocked, and the bubble
+// could never become quiescent again).
+func (w *World) MarkClosed() { w.closed = true }
+
 // QuitPuppets makes all puppet goroutines exit.
 func (w *World) QuitPuppets() {
 	for _, p := range w.Puppets {
